@@ -19,20 +19,26 @@ ASSUMPTIONS = ["accounts with ambiguous last segments inside the A/L section are
                "the truncation allowance n_steps is an upper bound (bookings on the account in the window + days x held commodities + 1)"]
 TECHNIQUE = ("Coq: Abel-summation and truncation lemmas about an executable model of Valuate/ComputePrices; closed-form mark-to-market "
              "specification evaluated on the binary's CSV; byte-exact model/implementation correspondence")
-LEVEL_TEXT = ("Proved (Coq, closed under the global context): end to end over days, for the Valuate stage from its initial state over any "
+LEVEL_TEXT = ("Proved (Coq, closed under the global context): (1) end to end over days, for the Valuate stage from its initial state over any "
               "list of days and for ComputePrices followed by Valuate, every asset/liability account a and commodity c <> V: "
               "|posted value(a,c) - quantity(a,c,T) * price(c,T)| <= n_steps * 1e-8 with n_steps the number of contributing Multiply calls "
               "(one per booking, one per revaluation), price = normalisation of the declarations up to the last day (carried forward on days "
               "without declarations); exact equality when no product has more than 8 decimals; a non-zero position has a price; the delta "
               "(window) form from any reachable state; per-step truncation error and oddness; booking-day valuation of every posting; shape "
               "of the revaluation transactions (income mirror, only open A/L positions, expenses/equity accounts never revalued); failure on "
-              "a missing price. Partial: the lifting of the window statement from the days leaving the stage to the cells of the rendered "
-              "report (Filter/Close/Query/Report and the builder's days) is stated in Properties/C03.v and decided per run by the closed-form "
-              "specification on the binary's output.")
-LEVEL_NOTE = ("Trusted: kernel, extraction, harness, hand-written model (sampled tie). Side conditions of the end-to-end theorems: syntactically "
-              "valid posting accounts, zero-quantity bookings enter with zero value. Partial: report cell = sum of the stage's posted values "
-              "in the window (C03_windowed_partial).")
-
+              "a missing price. (2) On the report of Cli.balance_report for journals as loaded, every valuation commodity, window, interval, "
+              "--last, with and without --close: the tree cell of an asset/liability account = sum of the values Valuate posted inside the "
+              "window (C03_report_cells, valued analogue of C02_cells); C03_windowed_cell / C03_windowed / C03_windowed_expected: "
+              "|cells cumulated up to a period end - (sum_c Q_T p_T - sum_c Q_(W-1) p_(W-1))| <= n_steps * 1e-8 with Q, p = "
+              "Spec.ValuationSpec.qty_upto / price_on on the directives (stable sort of the declarations by date = order of the builder's "
+              "days), exact for the valuation commodity itself, against Spec.ValuationSpec.mtm_expected for the whole row, n_steps a closed "
+              "form of the input (bookings + journal days in the window per commodity); corollary C03_mark_to_market_report for windows that "
+              "cover the position.")
+LEVEL_NOTE = ("Trusted: kernel, extraction, harness, hand-written model (sampled tie). Side conditions of the report theorems: posting accounts "
+              "syntactically valid (postings_syntactic, the parser's guarantee as in C02/C04/C05), the account is shown as itself (no "
+              "--mapping/--remap rule moves it or another account onto it) and passes the filters, non-empty window, column = a period end. Not proved (decided per "
+              "run by the closed form on the binary's cells): the printed, collapsed row text; rows aggregated by --mapping/--remap; the "
+              "tighter step count step_bound (row_steps counts every journal day in the window, also with --close the period starts).")
 
 def plan(tier, seed):
     if tier == "quick":
